@@ -14,3 +14,11 @@ mod migrations;
 #[cfg(test)]
 #[cfg(not(target_arch = "wasm32"))]
 mod tests;
+
+/// Verification hooks: re-exports of the private pure maths so that external property-based
+/// harnesses can drive them directly. Compiled only with `--cfg wwcore_verif`.
+#[cfg(wwcore_verif)]
+pub mod verif_hooks {
+    pub use crate::error::ContractError;
+    pub use crate::weight::calculate_weight;
+}
